@@ -179,7 +179,10 @@ PKT_LEN = 64
 MAP_VALUE = 64
 STACK_AREA = 64                        # fp-64 .. fp-1 is used by the body
 SPILL = -128                           # fp-128 .. fp-65 by the epilogue
-MAP_FD_PLACEHOLDER = 0x7ffffff0
+MAP_FD_PLACEHOLDER = 0x7ffffff0    # array map, one 64 byte value
+HASH_FD_PLACEHOLDER = 0x7ffffff1   # hash map, 4 byte keys, 8 byte values
+HASH_ENTRIES = 2
+HASH_KEYS = (0, 1, 2)
 MIX = 0x9e3779b97f4a7c15
 
 BOUNDARY64 = (
@@ -290,6 +293,35 @@ class Generator:
             off = size * r.randrange(MAP_VALUE // size)
         return insn(0xc3 | sizebits, base, self.reg(), off)
 
+    def helper_call(self):
+        """lookup / update / delete on the array or the hash map
+
+        One item of several instructions.  r0 gets a scalar on every path
+        (the looked-up value, 0, or the helper's return code), the clobbered
+        r1-r5 get new values.
+        """
+        r = self.rng
+        use_hash = r.random() < 0.6
+        fd = HASH_FD_PLACEHOLDER if use_hash else MAP_FD_PLACEHOLDER
+        code = [insn(0x62, R_FP, 0, -4, r.choice(HASH_KEYS)),   # key
+                insn(0xbf, 2, R_FP), insn(0x07, 2, 0, 0, -4),
+                ld64(1, fd, 1)]
+        what = r.choice(("lookup", "update", "update", "delete"))
+        if what == "lookup":
+            code += [insn(0x85, 0, 0, 0, 1), insn(0x15, 0, 0, 1, 0),
+                     insn(0x79, 0, 0, 0)]
+        elif what == "update":      # value: 8 resp. 64 bytes of stack
+            code += [insn(0xbf, 3, R_FP),
+                     insn(0x07, 3, 0, 0,
+                          -8 * r.randrange(1, 9) if use_hash else -64),
+                     insn(0xb7, 4, 0, 0, r.choice((0, 0, 1, 2, 3))),
+                     insn(0x85, 0, 0, 0, 2)]
+        else:
+            code += [insn(0x85, 0, 0, 0, 3)]
+        for reg in (1, 2, 3, 4, 5):
+            code.append(insn(0xb7, reg, 0, 0, self.const32()))
+        return b"".join(code)
+
     def condition(self):
         """a conditional jump with offset 0, to be patched"""
         r = self.rng
@@ -306,7 +338,7 @@ class Generator:
         r = self.rng
         count = r.randrange(4, 48)
         items = []
-        jumps = 0
+        jumps = calls = 0
         pending_else = {}   # item index where a JA has to be placed -> end
         i = 0
         while i < count:
@@ -332,6 +364,9 @@ class Generator:
                 items.append([code, i + 1])
                 i += 1
                 continue
+            elif c < 0.90 and calls < 3:
+                calls += 1
+                code = self.helper_call()
             elif jumps < 8 and i + 1 < count:
                 jumps += 1
                 target = min(count, i + 1 + r.randrange(0, 9))
@@ -444,10 +479,11 @@ class Generator:
         return b"".join(out + epi + fail)
 
 
-def patch_map_fd(code, fd):
+def patch_map_fds(code, array_fd, hash_fd):
     needle = ld64(1, MAP_FD_PLACEHOLDER, 1)
-    assert code.count(needle) == 1
-    return code.replace(needle, ld64(1, fd, 1))
+    assert code.count(needle) >= 1
+    code = code.replace(needle, ld64(1, array_fd, 1))
+    return code.replace(ld64(1, HASH_FD_PLACEHOLDER, 1), ld64(1, hash_fd, 1))
 
 
 def dump_program(code):
@@ -464,7 +500,19 @@ def random_programs(n, seed, verbose):
     gen = Generator(rng)
     sim = new_sim()
     maps = {side: side.create_map(2, 4, MAP_VALUE, 1) for side in (REAL, sim)}
+    hashes = {side: side.create_map(1, 4, 8, HASH_ENTRIES)
+              for side in (REAL, sim)}
     key = bytes(4)
+
+    def hash_content(side):
+        content = []
+        for k in HASH_KEYS:
+            try:
+                content.append(side.lookup(hashes[side], struct.pack("<I", k),
+                                           8))
+            except OSError as e:
+                content.append(e.errno)
+        return content
     compared = skipped = 0
     reasons = {}
     sim_time = 0.0
@@ -473,10 +521,19 @@ def random_programs(n, seed, verbose):
         code = gen.program()
         packet = bytes(rng.getrandbits(8) for _ in range(PKT_LEN))
         value = bytes(rng.getrandbits(8) for _ in range(MAP_VALUE))
+        preset = [(struct.pack("<I", k), struct.pack("<Q", rng.getrandbits(64)))
+                  for k in HASH_KEYS if rng.random() < 0.3][:HASH_ENTRIES]
         results = {}
         for side in (REAL, sim):
             side.update(maps[side], key, value)
-            mine = patch_map_fd(code, maps[side])
+            for k in HASH_KEYS:
+                try:
+                    side.delete(hashes[side], struct.pack("<I", k))
+                except OSError:
+                    pass
+            for k, v in preset:
+                side.update(hashes[side], k, v)
+            mine = patch_map_fds(code, maps[side], hashes[side])
             try:
                 fd = side.prog_load(mine)
             except OSError as e:
@@ -505,7 +562,8 @@ def random_programs(n, seed, verbose):
             if side is sim:
                 sim_time += time.perf_counter() - t0
             results[side] = (retval, out,
-                             side.lookup(maps[side], key, MAP_VALUE))
+                             side.lookup(maps[side], key, MAP_VALUE),
+                             hash_content(side))
         if results is None:
             skipped += 1
             continue
@@ -519,10 +577,12 @@ def random_programs(n, seed, verbose):
                 f"  map    {a[2].hex()}\n"
                 f"sim:  retval={b[0]:#x}\n  packet {b[1].hex()}\n"
                 f"  map    {b[2].hex()}\n"
+                f"hash map: real {a[3]} sim {b[3]}\n"
                 f"(packet words are r0 r1 r2 r3 r4 r5 r8 r9)\n"
                 f"{dump_program(code)}")
     for side in (REAL, sim):
         os.close(maps[side])
+        os.close(hashes[side])
     executed = sim.kernel.stats["insns"] - insns0
     return {"random_compared": compared, "random_skipped": skipped,
             "skip_errnos": reasons,
@@ -1096,7 +1156,6 @@ INVALID = (
     ("jmp K with src", insn(0x15, 0, 1, 0, 0)),
     ("jmp X with imm", insn(0x1d, 0, 0, 0, 1)),
     ("ja with imm", insn(0x05, 0, 0, 0, 1)),
-    ("jmp op 0xe0", insn(0xe5, 0, 0, 0, 0)),
     ("jmp32 exit", insn(0x96)),
     ("jmp32 call", insn(0x86, 0, 0, 0, 7)),
     ("call with dst", insn(0x85, 1, 0, 0, 7)),
@@ -1204,6 +1263,13 @@ def sim_only():
            + insn(0xbf, 2, 10) + insn(0x07, 2, 0, 0, -4)
            + insn(0x85, 0, 0, 0, 1) + insn(0x15, 0, 0, 1, 0)
            + insn(0x61, 0, 0, 6) + insn(0x95), "not inside")
+    lookup = (insn(0x62, 10, 0, -4, 0) + ld64(1, arr, 1) + insn(0xbf, 2, 10)
+              + insn(0x07, 2, 0, 0, -4) + insn(0x85, 0, 0, 0, 1)
+              + insn(0x15, 0, 0, 2, 0) + insn(0xb7, 1, 0, 0, 1))
+    faults("misaligned atomic", lookup + insn(0xc3, 0, 1, 2, 0) + EXIT0,
+           "misaligned atomic")
+    faults("atomic on packet", insn(0x61, 2, 1, 0) + insn(0xb7, 1, 0, 0, 1)
+           + insn(0xc3, 2, 1, 0, 0) + EXIT0, "atomic operation on packet")
     faults("lookup in prog array", insn(0x62, 10, 0, -4, 0) + ld64(1, pa, 1)
            + insn(0xbf, 2, 10) + insn(0x07, 2, 0, 0, -4)
            + insn(0x85, 0, 0, 0, 1) + EXIT0, "not allowed")
@@ -1248,6 +1314,20 @@ def sim_only():
            k.run_xdp(k.obj(cpu), bytearray(64), cpu=3)[0])
     if got != (500, 0x23456789, 3):
         raise Mismatch(f"helpers: {got}")
+    checks += 1
+
+    # raw interpreter speed: a count down loop
+    count = 100000
+    loop = sim.prog_load(
+        ld64(1, count) + insn(0xb7, 0, 0, 0, 0) + insn(0x07, 1, 0, 0, -1)
+        + insn(0x0f, 0, 1) + insn(0x55, 1, 0, -3, 0) + insn(0x95))
+    inst = k.new_instance(k.obj(loop), bytearray(64))
+    t0 = time.perf_counter()
+    retval = inst.run(max_steps=4 * count)
+    speed = int(inst.steps / (time.perf_counter() - t0))
+    if retval != (count * (count - 1) // 2) & 0xffffffff or \
+            inst.steps != 3 * count + 3:
+        raise Mismatch(f"count down loop: {retval} after {inst.steps} steps")
     checks += 1
 
     # per-CPU values: each CPU sees its own copy
@@ -1325,7 +1405,7 @@ def sim_only():
     if table_obj.slots[0] is not None or table_obj.urefs != 0:
         raise Mismatch("prog array without user reference was not emptied")
     checks += 1
-    return {"sim_only_checks": checks}
+    return {"sim_only_checks": checks, "sim_loop_insns_per_s": speed}
 
 
 # --------------------------------------------------------------------------
